@@ -115,6 +115,11 @@ pub fn observe(c: &Case) -> String {
             let cls = |r: Result<std::collections::HashMap<u32, std::collections::HashMap<u32, graphrs::algorithms::shortest_path::ShortestPathInfo<u32>>>, graphrs::Error>| match r { Ok(m) => format!("ok{}", m.len()), Err(e) => format!("E{}:{}", err_code(&e.kind), e.message) };
             fp.push_str(&format!("#neg:{}:{}:{}", cls(dijkstra::multi_source(gn, true, names, None, None, false, true)),
                 cls(dijkstra::multi_source(gn, true, with_absent, None, None, false, true)), cls(dijkstra::all_pairs(gn, true, None, None, false, true))));
+            // every option combination: which search routine runs (and whether it can notice the contradiction) must not
+            // depend on the branch taken
+            for (first_only, with_paths, cutoff) in [(false, false, None), (true, false, None), (true, true, None), (false, false, Some(1000.0)), (true, false, Some(1000.0))] {
+                fp.push_str(&format!(":{}", cls(dijkstra::all_pairs(gn, true, None, cutoff, first_only, with_paths))));
+            }
         }
         fp
     };
